@@ -21,47 +21,61 @@ open XcmModel XcmModel.Btls
 and any byte accepted from or delivered to the application ⇒ verified -/
 theorem C09_usable_only_if_verified (auth : Bool) (ops : List Op) :
     let s := run { auth := auth } ops
-    (s.state = .ready → Verified s) ∧ (s.written ≠ [] → Verified s) ∧ (s.delivered ≠ [] → Verified s) := by
+    (s.state = .ready → Verified s) ∧ (s.written ≠ [] → Verified s) ∧ (s.delivered ≠ [] → Verified s) ∧
+    (s.accepted ≠ [] → Verified s) := by
   have h := run_inv ops (init_inv auth)
-  exact ⟨h.readyVerified, fun x => h.ioVerified (Or.inl x), fun x => h.ioVerified (Or.inr x)⟩
+  exact ⟨h.readyVerified, fun x => h.ioVerified (Or.inl x), fun x => h.ioVerified (Or.inr (Or.inl x)),
+    fun x => h.ioVerified (Or.inr (Or.inr x))⟩
 
 /-- `xcm_finish` returns 0 only on a verified connection -/
-theorem C09_finish_success_only_if_verified {s : St} (hi : Inv s) (h : HAns) (l : Option Nat) (k : Nat) (p : Bytes)
-    (hr : (finish s h l).2 = .n k p) : Verified (finish s h l).1 := by
+theorem C09_finish_success_only_if_verified {s : St} (hi : Inv s) (h : HAns) (ws : List WAns) (l : Option Nat) (k : Nat) (p : Bytes)
+    (hr : (finish s h ws l).2.1 = .n k p) : Verified (finish s h ws l).1 := by
   have h1 := tfh_inv hi h
-  unfold finish at hr ⊢
-  generalize tryFinishHandshake s h = s1 at h1 hr
-  simp only at hr ⊢
-  split at hr
-  · cases hr
-  · rename_i hs; split <;> first | exact h1.readyVerified hs | simp_all
-  · cases hr
-  · cases hr
+  revert hr
+  unfold finish
+  generalize tryFinishHandshake s h = s1 at h1
+  simp only
+  split
+  · intro hr; cases hr
+  · rename_i hs
+    have fc := flush_core (s1.pend.length + 1) s1 ws
+    cases hf : flushPending (s1.pend.length + 1) s1 ws with
+    | mk sf rest3 =>
+      obtain ⟨fr, rest, nf⟩ := rest3
+      rw [hf] at fc
+      simp only
+      cases fr with
+      | some r => intro _; exact verified_of_fields fc.1.auth fc.1.hd fc.1.verdict (h1.readyVerified hs)
+      | none => intro _; exact verified_of_fields fc.1.auth fc.1.hd fc.1.verdict (h1.readyVerified hs)
+  · intro hr; cases hr
+  · intro hr; cases hr
 
 /-- OpenSSL is asked to encrypt application data (`SSL_write` is called at all) only on a verified connection -/
-theorem C09_no_write_unless_verified {s : St} (hi : Inv s) (buf : Bytes) (h : HAns) (w : WAns)
-    (hc : (send s buf h w).2.2 = true) : Verified (tryFinishHandshake s h) ∧ (tryFinishHandshake s h).state = .ready := by
+theorem C09_no_write_unless_verified {s : St} (hi : Inv s) (buf : Bytes) (h : HAns) (ws : List WAns)
+    (hc : (send s buf h ws).2.2 ≠ 0) : Verified (tryFinishHandshake s h) ∧ (tryFinishHandshake s h).state = .ready := by
   have h1 := tfh_inv hi h
   unfold send at hc
   generalize tryFinishHandshake s h = s1 at h1 hc ⊢
   simp only at hc
   split at hc
-  · cases hc
-  · cases hc
-  · cases hc
+  · exact absurd rfl hc
+  · exact absurd rfl hc
+  · exact absurd rfl hc
   · rename_i hs; exact ⟨h1.readyVerified hs, hs⟩
 
-/-- `SSL_read` is called - and so received plaintext can reach the application - only on a verified connection -/
-theorem C09_no_read_unless_verified {s : St} (hi : Inv s) (cap : Nat) (h : HAns) (r : RAns)
-    (hc : (receive s cap h r).2.2 = true) : Verified (tryFinishHandshake s h) ∧ (tryFinishHandshake s h).state = .ready := by
+/-- `SSL_read` or (for retained output) `SSL_write` is called from xcm_receive - and so plaintext can move - only on a
+verified connection -/
+theorem C09_no_read_unless_verified {s : St} (hi : Inv s) (cap : Nat) (h : HAns) (ws : List WAns) (r : RAns)
+    (hc : (receive s cap h ws r).2.2.1 = true ∨ (receive s cap h ws r).2.2.2 ≠ 0) :
+    Verified (tryFinishHandshake s h) ∧ (tryFinishHandshake s h).state = .ready := by
   have h1 := tfh_inv hi h
   unfold receive at hc
   generalize tryFinishHandshake s h = s1 at h1 hc ⊢
   simp only at hc
   split at hc
-  · cases hc
-  · cases hc
-  · cases hc
+  · rcases hc with hc | hc; cases hc; exact absurd rfl hc
+  · rcases hc with hc | hc; cases hc; exact absurd rfl hc
+  · rcases hc with hc | hc; cases hc; exact absurd rfl hc
   · rename_i hs; exact ⟨h1.readyVerified hs, hs⟩
 
 /-- policy not met: the step that completes the handshake makes the connection `bad(EPROTO)` -/
@@ -75,22 +89,18 @@ theorem C09_policy_failure_bad (s : St) (cert : CertRes) (hs : s.state = .handsh
 accepting or delivering a byte -/
 theorem C09_policy_failure_reports_EPROTO (s : St) (cert : CertRes) (hs : s.state = .handshaking) (ha : s.auth = true)
     (hc : cert ≠ .ok) :
-    (∀ buf w, (send s buf (.done cert) w).2 = (.err EPROTO, false) ∧ (send s buf (.done cert) w).1.written = s.written) ∧
-    (∀ cap r, (receive s cap (.done cert) r).2 = (.err EPROTO, false) ∧ (receive s cap (.done cert) r).1.delivered = s.delivered) ∧
-    (∀ l, (finish s (.done cert) l).2 = .err EPROTO) := by
+    (∀ buf ws, (send s buf (.done cert) ws).2 = (.err EPROTO, 0) ∧ (send s buf (.done cert) ws).1.accepted = s.accepted) ∧
+    (∀ cap ws r, (receive s cap (.done cert) ws r).2 = (.err EPROTO, false, 0) ∧ (receive s cap (.done cert) ws r).1.delivered = s.delivered) ∧
+    (∀ ws l, (finish s (.done cert) ws l).2 = (.err EPROTO, 0)) := by
   have hb := C09_policy_failure_bad s cert hs ha hc
-  have hw : (tryFinishHandshake s (.done cert)).written = s.written ∧ (tryFinishHandshake s (.done cert)).delivered = s.delivered := by
-    unfold tryFinishHandshake
-    rw [if_neg (by simp [hs])]
-    simp only [ha, if_true]
-    cases cert <;> simp_all
-  refine ⟨fun buf w => ?_, fun cap r => ?_, fun l => ?_⟩
+  have hw := tfh_data s (.done cert)
+  refine ⟨fun buf w => ?_, fun cap w r => ?_, fun w l => ?_⟩
   · unfold send
     generalize tryFinishHandshake s (.done cert) = s1 at hb hw
-    simp only [hb]; exact ⟨trivial, hw.1⟩
+    simp only [hb]; exact ⟨trivial, hw.2.2.2.1⟩
   · unfold receive
     generalize tryFinishHandshake s (.done cert) = s1 at hb hw
-    simp only [hb]; exact ⟨trivial, hw.2⟩
+    simp only [hb]; exact ⟨trivial, hw.2.1⟩
   · unfold finish
     generalize tryFinishHandshake s (.done cert) = s1 at hb hw
     simp only [hb]
@@ -100,7 +110,7 @@ becomes usable, in any continuation -/
 theorem C09_rejected_peer_never_served (cert : CertRes) (hc : cert ≠ .ok) (pre post : List Op)
     (hpre : (run { auth := true } pre).state = .handshaking) (hauth : (run { auth := true } pre).auth = true) :
     let s := run (tryFinishHandshake (run { auth := true } pre) (.done cert)) post
-    s.written = [] ∧ s.delivered = [] ∧ s.state = .bad EPROTO := by
+    s.written = [] ∧ s.delivered = [] ∧ s.accepted = [] ∧ s.state = .bad EPROTO := by
   intro s
   have hi0 := run_inv pre (init_inv true)
   have hb := C09_policy_failure_bad _ cert hpre hauth hc
@@ -108,7 +118,7 @@ theorem C09_rejected_peer_never_served (cert : CertRes) (hc : cert ≠ .ok) (pre
   rw [hs]
   have hd := tfh_data (run { auth := true } pre) (.done cert)
   have h0 := hi0.hsOnce hpre
-  exact ⟨hd.1.trans h0.2.1, hd.2.1.trans h0.2.2, hb⟩
+  exact ⟨hd.1.trans h0.2.1, hd.2.1.trans h0.2.2.1, hd.2.2.2.1.trans h0.2.2.2.2, hb⟩
 
 /-- non-vacuity: an accepted certificate does make the connection usable, with and without authentication -/
 example : (tryFinishHandshake { auth := true } (.done .ok)).state = .ready ∧
